@@ -8,13 +8,19 @@ HARNESSES = [dict(name="cgnat", pkg="./internal/cgnat/", test="TestVerifC15", ti
 MODEL_NEEDS_IMPL = True
 # repaired first; "def:XYZ" = model with the listed recorded defects present
 #   R restoreLocked does not validate   A ReverseIndex.Add appends a duplicate   D duplicate outside addresses kept
-VARIANTS = ["repaired", "def:R", "def:A", "def:D", "def:RA", "def:RD", "def:AD", "defective"]
-DEFECT_NAMES = {"R": "restore-unvalidated", "A": "reverse-add-duplicate", "D": "duplicate-outside-address"}
+#   S the failure branch of the HA-synced activation releases the blocks but leaves the reverse entries
+# R, A and D are fixed in /repo (285c7b2, 7d1d0b3, 3b1c45d): their variants are no longer tried, a regression is a
+# VIOLATION.  The driver still understands every letter combination.
+VARIANTS = ["repaired", "def:S"]
+DEFECT_NAMES = {"R": "restore-unvalidated", "A": "reverse-add-duplicate", "D": "duplicate-outside-address",
+                "S": "synced-rollback-keeps-reverse-entries"}
 RULE = ("Two kinds of history. pool: <=70 calls of AllocateBlock/GetOrAllocate/ReleaseBlocks/RestoreMapping/"
         "RestoreMappingIfAbsent on one PoolManager over <=7 subscribers (two VRFs); comp: <=45 events driven through "
-        "the real Component (handleSessionActivate with dataplane success/failure and with an HA-synced record, "
-        "handleSessionRelease, restoreFromOpDB with one persisted mapping in the session-present and the degraded "
-        "branch).  Geometries: 1-4 public addresses given as literals and /30 /31 prefixes (sometimes duplicated), "
+        "the real Component (handleSessionActivate with and without an HA-synced record, handleSessionRelease, "
+        "restoreFromOpDB with one persisted mapping in the session-present and the degraded branch), each with a fault "
+        "pattern for the southbound fake: dataplane add ok/failed, every dataplane delete ok/failed and completing "
+        "at once or later (pending callbacks fired newest-first by a C event), bulk reprogram ok / per-mapping error "
+        "/ transport error.  After EVERY comp event the reverse index is swept.  Geometries: 1-4 public addresses given as literals and /30 /31 prefixes (sometimes duplicated), "
         "0-2 exclusions, port ranges of 77..64512 ports with block sizes 4..1024 giving 0,4,8,16,64,65,125,126,128 "
         "blocks per address (one word, word boundary, two words), block size from subscriber-ratio, defaults for "
         "every unset field, limit 1-4, paired/arbitrary pooling.  About a third of the histories are 'clean' (no restores, no duplicate addresses, one live session per subscriber), so that the contract proper is compared exactly even while recorded defects are unfixed.  Restore arguments come from named classes: free "
@@ -28,13 +34,14 @@ RULE = ("Two kinds of history. pool: <=70 calls of AllocateBlock/GetOrAllocate/R
 TRUSTED = ["Go map iteration order is projected away (subscribers sorted by key in dumps)",
            "byIP of the reverse index is modelled as one insertion-ordered list instead of one slice per address",
            "the dataplane, opdb, event bus, config manager and session provider are harness fakes; the dataplane fake "
-           "completes every asynchronous call synchronously"]
+           "completes add calls synchronously (ok or failed) and delete calls synchronously or later"]
 ASSUMPTIONS = ["port-range start <= end <= 65535 (cgnat.Config.Validate does not check this; a reversed range makes "
                "ConfigurePool allocate a 2^32-port bitmap)",
                "one pool; ConfigurePool is not called again during a history",
                "IPv4 outside addresses; exclusions written in canonical dotted form",
-               "component level: dataplane failure is injected only on the plain activation path (on the HA-synced "
-               "path the rollback calls ReleaseBlocks without removing reverse entries: noted, not modelled)"]
+               "component level: dataplane ADD callbacks complete before the next event (an add that is still in "
+               "flight while another event for the same inside address is handled is outside the model: exactness "
+               "then depends on one-live-session-per-inside-address and on restore running before events, see notes)"]
 
 BASE = 1681915904  # 100.64.0.0
 
@@ -159,6 +166,13 @@ def gen_pool_case(rng, nmax):
     return "pool " + " ".join(toks) + " | " + " ".join(ops)
 
 
+def del_pattern(rng):
+    r = rng.random()
+    if r < 0.45:
+        return ""
+    return ":" + "".join(rng.choice("offOOF") for _ in range(rng.randint(1, 4)))
+
+
 def gen_comp_case(rng, nmax):
     clean = rng.random() < 0.35      # one live session per subscriber, no restores, no duplicate addresses
     toks, gp = gen_cfg(rng, allow_dup=not clean)
@@ -166,11 +180,16 @@ def gen_comp_case(rng, nmax):
     live = {}          # sid -> k
     nxt = [1]
     ops = []
+    sw = sweep_ops(gp)
 
     def new_sid():
         nxt[0] += 1
         return nxt[0]
-    n = rng.randint(5, nmax)
+
+    def ev(tok):
+        ops.append(tok)
+        ops.extend(sw)                 # full reverse sweep after every event
+    n = rng.randint(4, nmax)
     for i in range(n):
         r = rng.random()
         if clean:
@@ -182,8 +201,9 @@ def gen_comp_case(rng, nmax):
                     r = 0.4
                 else:
                     sid, k = new_sid(), rng.choice(free)
-                    ops.append("A:%d:%d:%d" % (sid, k, 0 if rng.random() < 0.2 else 1))
-                    if ops[-1].endswith(":1"):
+                    ok = 0 if rng.random() < 0.2 else 1
+                    ev("A:%d:%d:%d" % (sid, k, ok))
+                    if ok:
                         live[sid] = k
                     continue
             if r < 0.52 and not live:
@@ -195,7 +215,7 @@ def gen_comp_case(rng, nmax):
                 k = live[sid]
             else:
                 sid = new_sid()
-            ops.append("A:%d:%d:%d" % (sid, k, 0 if rng.random() < 0.15 else 1))
+            ev("A:%d:%d:%d" % (sid, k, 0 if rng.random() < 0.15 else 1))
             live.setdefault(sid, k)
         elif r < 0.52:
             if live and rng.random() < 0.85:
@@ -205,30 +225,37 @@ def gen_comp_case(rng, nmax):
                     k = rng.choice(subs)
             else:
                 sid, k = new_sid(), rng.choice(subs)
-            ops.append("X:%d:%d" % (sid, k))
+            ev("X:%d:%d%s" % (sid, k, del_pattern(rng)))
         elif r < 0.72:
             mk = rng.choice(subs)
             ip, s, e, _ = restore_arg(rng, gp)
             kind = rng.choice("PDD")
             sid = new_sid() if rng.random() < 0.8 or not live else rng.choice(list(live))
-            ops.append("%s:%d:%d:%d:%d:%d" % (kind, sid, mk, ip, s, e))
-            if kind == "P":
+            bulk = rng.choice([0, 0, 0, 1, 2]) if kind == "P" else 0
+            ev("%s:%d:%d:%d:%d:%d%s" % (kind, sid, mk, ip, s, e, (":%d" % bulk) if kind == "P" else ""))
+            if kind == "P" and bulk == 0:
                 live.setdefault(sid, mk)
             if rng.random() < 0.3:       # re-entered restore of the same record
-                ops.append("%s:%d:%d:%d:%d:%d" % (rng.choice("PD"), sid, mk, ip, s, e))
-        elif r < 0.80:
+                k2 = rng.choice("PD")
+                ev("%s:%d:%d:%d:%d:%d%s" % (k2, sid, mk, ip, s, e, ":0" if k2 == "P" else ""))
+        elif r < 0.82:
             k = rng.choice(subs)
             mk = k if rng.random() < 0.85 else rng.choice(subs)
             ip, s, e, _ = restore_arg(rng, gp)
+            if rng.random() < 0.4 and not clean:
+                # the record names a block the subscriber was given by an earlier (degraded) restore
+                ev("D:%d:%d:%d:%d:%d" % (new_sid(), mk, ip, s, e))
             sid = new_sid()
-            ops.append("S:%d:%d:%d:%d:%d:%d" % (sid, k, mk, ip, s, e))
-            live.setdefault(sid, k)
+            ok = 0 if rng.random() < 0.35 else 1
+            ev("S:%d:%d:%d:%d:%d:%d:%d" % (sid, k, mk, ip, s, e, ok))
+            if ok:
+                live.setdefault(sid, k)
         elif r < 0.90:
             ops.append("d")
         else:
-            ops += sweep_ops(gp)
+            ev("C")
+    ev("C")
     ops.append("d")
-    ops += sweep_ops(gp)
     return "comp " + " ".join(toks) + " | " + " ".join(ops)
 
 
@@ -262,7 +289,7 @@ def gen_cases(rng, tier, budget):
     for _ in range(npool):
         cases.append(gen_pool_case(rng, 70 if tier == "thorough" or rng.random() < 0.3 else 30))
     for _ in range(ncomp):
-        cases.append(gen_comp_case(rng, 45 if tier == "thorough" or rng.random() < 0.3 else 22))
+        cases.append(gen_comp_case(rng, 30 if tier == "thorough" or rng.random() < 0.3 else 14))
     return cases
 
 
@@ -322,7 +349,7 @@ def closest_variant(case, impl, model):
         with tempfile.TemporaryDirectory() as d:
             open(os.path.join(d, "c"), "w").write(case + "\n")
             open(os.path.join(d, "i"), "w").write(impl + "\n")
-            out = subprocess.run([exe, os.path.join(d, "c"), os.path.join(d, "i"), "all"], stdout=subprocess.PIPE,
+            out = subprocess.run([exe, os.path.join(d, "c"), os.path.join(d, "i"), "all=" + ",".join(VARIANTS)], stdout=subprocess.PIPE,
                                  text=True, timeout=20).stdout.rstrip("\n")
         lines = out.split(" ### ")
         if len(lines) == len(VARIANTS):
@@ -339,7 +366,7 @@ def closest_variant(case, impl, model):
 def classify(case, impl, model):
     v, ref = closest_variant(case, impl, model)
     tag = "" if v == "repaired" else " [compared with model variant %s, i.e. besides the recorded defect(s) %s]" % (
-        v, "+".join(DEFECT_NAMES[c] for c in ("RAD" if v == "defective" else v[4:])))
+        v, "+".join(DEFECT_NAMES[c] for c in ("RADS" if v == "defective" else v[4:])))
     k, txt = classify1(case, impl, ref)
     return k, txt + tag
 
@@ -376,10 +403,9 @@ def classify1(case, impl, model):
 
 
 def signature(case, impl, models):
-    order = ["def:R", "def:A", "def:D", "def:RA", "def:RD", "def:AD", "defective"]
-    for v in order:
+    for v in VARIANTS[1:]:
         if models.get(v) == impl:
-            letters = "RAD" if v == "defective" else v[4:]
+            letters = "RADS" if v == "defective" else v[4:]
             return "+".join(DEFECT_NAMES[c] for c in letters)
     return None
 
